@@ -26,6 +26,7 @@ from pedal.sandbox.exceptions import SandboxHasNoFunction, SandboxHasNoVariable
 from pedal.sandbox.timeout import timeout, was_terminated
 from pedal.sandbox.result import SandboxResult
 from pedal.sandbox.tracer import TRACER_STYLES
+from pedal.utilities.system import IS_SKULPT
 
 
 class Sandbox:
@@ -134,7 +135,12 @@ class Sandbox:
         imported_module = types.ModuleType(module_name)
         # Patch the builtins using the same rules as `execute`
         #    EXCEPT only the builtins, not the other stuff?
-        imported_module_data = {}
+        if IS_SKULPT:
+            imported_module_data = {'__name__': module_name}
+        else:
+            # The module's own namespace: its functions' globals are the
+            # module's attributes, and it knows its `__name__`
+            imported_module_data = imported_module.__dict__
         self._reset_builtins(imported_module_data)
         builtins = self._module_overrides.get('__builtins__', {})
         self._mock_builtins(imported_module_data, builtins)
@@ -143,8 +149,9 @@ class Sandbox:
         with self.trace.as_filename(filename, code):
             exec(compiled_code, imported_module_data)
         # Copy over data to module
-        for key, value in imported_module_data.items():
-            setattr(imported_module, key, value)
+        if imported_module_data is not imported_module.__dict__:
+            for key, value in imported_module_data.items():
+                setattr(imported_module, key, value)
         # And get them back the module
         return imported_module
 
